@@ -5,7 +5,7 @@ from common import Expander
 from props.C15 import per_trait, ENTRY_ITEMS
 
 LEVEL = "other"
-G_UNITS = {"entry": ["DeriveEntry::apply_dump", "DeriveEntry::from_args_list"]}
+G_UNITS = {"entry": ["DeriveEntry::apply_dump", "DeriveEntry::from_args_list"], "implitem": ["Args::from_attr_args"]}
 
 
 def canon_of(ex, text):
